@@ -920,6 +920,16 @@ func propC16(run *Run, n int) {
 		docs = append(docs, VStr("no"))
 		addC16Batch(run, docs)
 	}
+	// fixed batches of documents that differ only in values whose 64-bit hash codes coincide (an 8-byte string and
+	// the number with the same IEEE-754 bytes; the empty containers): a rendering must depend on the document, not
+	// on its hash code (a memo keyed by the hash hands the first text to the second document)
+	for _, tw := range [][2]*Val{{VStr("AAAAAAAA"), VNum(2261634.5098039214)}, {VNum(2261634.5098039214), VStr("AAAAAAAA")}, {VStr("abcdefgh"), VNum(8.540883223036124e+194)}, {VNum(8.540883223036124e+194), VStr("abcdefgh")}} {
+		x, y := tw[0], tw[1]
+		addC16Batch(run, []*Val{VObj("id", x.Clone(), "tags", VArr(VStr("x"), VStr("1"))), VObj("id", y.Clone(), "tags", VArr(VStr("x"), VStr("1")))})
+		addC16Batch(run, []*Val{VArr(x.Clone(), VStr("t")), VArr(y.Clone(), VStr("t")), x.Clone(), y.Clone()})
+		addC16Batch(run, []*Val{VObj("o", VObj("i", VArr(VObj("id", x.Clone())))), VObj("o", VObj("i", VArr(VObj("id", y.Clone()))))})
+		run.Count("fixed:hash-twin-batches")
+	}
 	for i := 0; i < n; i++ {
 		cfg := c16Cfg(r)
 		addC16DocCase(run, cfg.Doc(r, 0), "random")
